@@ -524,4 +524,120 @@ theorem thread_result_wrapper_is_callFn (A : F64 F) (cfg : Cfg) (fw : Option F) 
   rw [← hm] at hsim
   exact hsim
 
+/-! ## (e) the same for global scope (sequential reading of the engine, see T08 / T09) -/
+
+/-- what relates a `GlobalCache` to a model state -/
+def RelG (cfg : Cfg) (fw : Option F) (now : Nat) (c : GlobalCache K V F) (s : State K V) : Prop :=
+  T08.cfgOf c = cfg ∧ c.frequency_weight = fw ∧ c.map = s.store ∧ c.order = s.queue ∧ s.now = now ∧
+  c.stats.hits = s.hitStat ∧ c.stats.misses = s.missStat
+
+/-- the sync global `get` simulates the model's `get` -/
+theorem global_get_sim (cfg : Cfg) (fw : Option F) (now : Nat) (k : K) (c : GlobalCache K V F) (s : State K V)
+    (hr : RelG cfg fw now c s) (hh : ∀ p, p ∈ c.map → p.2.hits + 1 < u64Max) :
+    (Global.get ⟨fun b => now - b, now⟩ c k).1 = (Cachelito.get cfg s k).2 ∧
+    RelG cfg fw now (Global.get ⟨fun b => now - b, now⟩ c k).2 (Cachelito.get cfg s k).1 ∧
+    ∀ p, p ∈ (Global.get ⟨fun b => now - b, now⟩ c k).2.map → p.2.hits < u64Max := by
+  obtain ⟨h1, h2, h3, h4, h5, h6, h7⟩ := hr
+  have hs : s = ⟨c.map, c.order, now, c.stats.hits, c.stats.misses⟩ := by
+    cases s; simp_all
+  have hg := T09.get_eq c now k (fun p hp => by have := hh p hp; omega)
+  rw [h1, ← hs] at hg
+  rw [hg]
+  refine ⟨rfl, ⟨by simpa [T08.cfgOf] using h1, h2, rfl, rfl, ?_, rfl, rfl⟩, ?_⟩
+  · unfold Cachelito.get
+    cases lookup k s.store <;> simp [h5]
+    split <;> simp [h5]
+  · intro p hp
+    have hf : cfg.flavour ≠ .async := by rw [← h1]; simp [T08.cfgOf]
+    obtain ⟨p0, hp0, hle⟩ := get_hits_le cfg hf s k p hp
+    have := hh p0 (by rw [h3]; exact hp0)
+    omega
+
+/-- the sync global plain `insert` simulates the model's `insert` -/
+theorem global_insert_sim (A : F64 F) (cfg : Cfg) (fw : Option F) (now r : Nat) (k : K) (v : V)
+    (c : GlobalCache K V F) (s : State K V) (hr : RelG cfg fw now c s) (hh : ∀ p, p ∈ c.map → p.2.hits < u64Max)
+    (fok : FloatOK A cfg fw) :
+    RelG cfg fw now (Global.insert A ⟨fun b => now - b, now⟩ r c k v) (Cachelito.insert cfg (T02.srcTlru A fw) r s k v) := by
+  obtain ⟨h1, h2, h3, h4, h5, h6, h7⟩ := hr
+  have hs : s = ⟨c.map, c.order, now, c.stats.hits, c.stats.misses⟩ := by
+    cases s; simp_all
+  have ok : T08.ScoresOK A c := ⟨hh, fok.arcBelowMax, fok.arcOrder, by rw [h1, h2]; exact fok.tlruBelowMax⟩
+  have hi := T08.insert_eq A c now r c.stats.hits c.stats.misses k v ok
+  rw [h1, h2, ← hs] at hi
+  rw [hi]
+  obtain ⟨f1, f2, f3⟩ := insert_frame cfg (T02.srcTlru A fw) r s k v
+  exact ⟨by simpa [T08.cfgOf] using h1, rfl, rfl, rfl, by rw [f1, h5], by rw [f2]; exact h6, by rw [f3]; exact h7⟩
+
+/-- **The wrapper `#[cache]` (global scope) generates for a plain function without `max_memory` is the model's
+    `callFn`**: for every policy / limit / ttl, with or without `invalidate_on` and `cache_if`, for every cache content,
+    key, body value and predicate verdicts, the generic wrapper over the TRANSLATED sync global engine returns what
+    `callFn` returns and leaves the cache in the state `callFn` leaves.  (By part (a) the generated wrapper of each such
+    configuration is that generic wrapper; by T08 / T09 the translated engine is the model's engine.) -/
+theorem global_plain_wrapper_is_callFn (A : F64 F) (cfg : Cfg) (fw : Option F) (now : Nat) (rs : List Nat)
+    (inv ci : Bool) (io cif : K → V → Bool) (size : V → Nat) (isOk : V → Bool)
+    (c : GlobalCache K V F) (s : State K V) (key : K) (body : V)
+    (hr : RelG cfg fw now c s) (hh : ∀ p, p ∈ c.map → p.2.hits + 1 < u64Max) (fok : FloatOK A cfg fw) :
+    (wrapGen ⟨fun c k => Global.get ⟨fun b => now - b, now⟩ c k,
+              fun c k v => Global.insert A ⟨fun b => now - b, now⟩ (headRand rs) c k v⟩ inv ci io cif c key body).1 =
+      (callFn ⟨"f", false, false, cfg, false, false, ci, inv, [], [], []⟩ (T02.srcTlru A fw) size isOk rs s ⟨key, body, cif, io⟩).2.1 ∧
+    RelG cfg fw now
+      (wrapGen ⟨fun c k => Global.get ⟨fun b => now - b, now⟩ c k,
+                fun c k v => Global.insert A ⟨fun b => now - b, now⟩ (headRand rs) c k v⟩ inv ci io cif c key body).2
+      (callFn ⟨"f", false, false, cfg, false, false, ci, inv, [], [], []⟩ (T02.srcTlru A fw) size isOk rs s ⟨key, body, cif, io⟩).1 := by
+  have hm := callFn_eq_wrapGen (K := K) ⟨"f", false, false, cfg, false, false, ci, inv, [], [], []⟩ rfl (T02.srcTlru A fw) size isOk rs s ⟨key, body, cif, io⟩
+  have hsim := wrapGen_sim
+    (fun c s => RelG cfg fw now c s ∧ ∀ p, p ∈ c.map → p.2.hits + 1 < u64Max)
+    (fun c s => RelG cfg fw now c s ∧ ∀ p, p ∈ c.map → p.2.hits < u64Max)
+    (fun c s => RelG cfg fw now c s)
+    ⟨fun c k => Global.get ⟨fun b => now - b, now⟩ c k, fun c k v => Global.insert A ⟨fun b => now - b, now⟩ (headRand rs) c k v⟩
+    (modelOps ⟨"f", false, false, cfg, false, false, ci, inv, [], [], []⟩ (T02.srcTlru A fw) size isOk rs)
+    inv ci io cif key body
+    (fun c s h => by
+      obtain ⟨g1, g2, g3⟩ := global_get_sim cfg fw now key c s h.1 h.2
+      exact ⟨g1, g2, g3⟩)
+    (fun c s h => by
+      simp only [modelOps, headRand]
+      exact global_insert_sim A cfg fw now _ key body c s h.1 h.2 fok)
+    (fun c s h => h.1) c s ⟨hr, hh⟩
+  simp only [] at hm
+  rw [← hm] at hsim
+  exact hsim
+
+/-- **The same for a global-scope function returning `Result`** (store variant `insert_result`): the generated wrapper is
+    `callFn` with `isResult := true` — in particular an `Err` is returned but never stored, whatever `cache_if` says (C09) -/
+theorem global_result_wrapper_is_callFn (A : F64 F) (cfg : Cfg) (fw : Option F) (now : Nat) (rs : List Nat)
+    (inv ci : Bool) (io cif : K → Except E T → Bool) (size : Except E T → Nat)
+    (c : GlobalCache K (Except E T) F) (s : State K (Except E T)) (key : K) (body : Except E T)
+    (hr : RelG cfg fw now c s) (hh : ∀ p, p ∈ c.map → p.2.hits + 1 < u64Max) (fok : FloatOK A cfg fw) :
+    (wrapGen ⟨fun c k => Global.get ⟨fun b => now - b, now⟩ c k,
+              fun c k v => Global.insert_result A ⟨fun b => now - b, now⟩ (headRand rs) c k v⟩ inv ci io cif c key body).1 =
+      (callFn ⟨"f", false, false, cfg, false, true, ci, inv, [], [], []⟩ (T02.srcTlru A fw) size isOkE rs s ⟨key, body, cif, io⟩).2.1 ∧
+    RelG cfg fw now
+      (wrapGen ⟨fun c k => Global.get ⟨fun b => now - b, now⟩ c k,
+                fun c k v => Global.insert_result A ⟨fun b => now - b, now⟩ (headRand rs) c k v⟩ inv ci io cif c key body).2
+      (callFn ⟨"f", false, false, cfg, false, true, ci, inv, [], [], []⟩ (T02.srcTlru A fw) size isOkE rs s ⟨key, body, cif, io⟩).1 := by
+  have hm := callFn_eq_wrapGen (K := K) ⟨"f", false, false, cfg, false, true, ci, inv, [], [], []⟩ rfl (T02.srcTlru A fw) size isOkE rs s ⟨key, body, cif, io⟩
+  have hsim := wrapGen_sim
+    (fun c s => RelG cfg fw now c s ∧ ∀ p, p ∈ c.map → p.2.hits + 1 < u64Max)
+    (fun c s => RelG cfg fw now c s ∧ ∀ p, p ∈ c.map → p.2.hits < u64Max)
+    (fun c s => RelG cfg fw now c s)
+    ⟨fun c k => Global.get ⟨fun b => now - b, now⟩ c k, fun c k v => Global.insert_result A ⟨fun b => now - b, now⟩ (headRand rs) c k v⟩
+    (modelOps ⟨"f", false, false, cfg, false, true, ci, inv, [], [], []⟩ (T02.srcTlru A fw) size isOkE rs)
+    inv ci io cif key body
+    (fun c s h => by
+      obtain ⟨g1, g2, g3⟩ := global_get_sim cfg fw now key c s h.1 h.2
+      exact ⟨g1, g2, g3⟩)
+    (fun c s h => by
+      simp only [modelOps, headRand]
+      cases body with
+      | error e => simp [T13.global_insert_result_err, isOkE]; exact h.1
+      | ok x =>
+        simp only [T13.global_insert_result_ok, isOkE, if_true]
+        exact global_insert_sim A cfg fw now _ key (.ok x) c s h.1 h.2 fok)
+    (fun c s h => h.1) c s ⟨hr, hh⟩
+  simp only [] at hm
+  rw [← hm] at hsim
+  exact hsim
+
+
 end Cachelito.T17
